@@ -1,6 +1,7 @@
 import Tengo.Props.C10
 import Tengo.Props.C10Heap
 import Tengo.Props.C10HeapInv
+import Tengo.Props.C10Trans
 /-! C10: the laws over tree-shaped model values (`C10`) and "a copy shares no mutable state with its original"
 over the heap model of C09 (`C10Heap`: copy_fresh, copy_disjoint, copy_frame, writes through one side keep the
 other, copy_equal) and "the hypotheses are invariants, separation is derived from the initial disjointness, the copy of a DAG is a
